@@ -3,7 +3,6 @@ package tokenworld
 import (
 	"encoding/hex"
 	"fmt"
-	"strings"
 
 	"github.com/cosmos/gogoproto/proto"
 
@@ -697,5 +696,3 @@ func (s *TW) Describe(w *ksim.World, op ksim.Op) string {
 	}
 	return op.String()
 }
-
-var _ = strings.Join
